@@ -179,7 +179,8 @@ def corruptions(rs, root):
     inner = [n for n in nodes_of(base) if n.children]
     if not inner:
         return
-    for name in ['overlap-keep-union', 'overlap-non-adjacent', 'gap', 'missing-weight', 'extra-weight', 'id-clash', 'id-gap', 'childless', 'cycle', 'sum-scope']:
+    for name in ['overlap-keep-union', 'overlap-non-adjacent', 'gap', 'missing-weight', 'extra-weight', 'id-clash', 'id-gap', 'childless', 'cycle', 'sum-scope',
+                 'overlap-dup-scope-list', 'dup-scope-list-only', 'overlap-dup-in-child']:
         r = copy.deepcopy(root)
         ns = nodes_of(r)
         prods = [n for n in ns if isinstance(n, Product)]
@@ -243,6 +244,26 @@ def corruptions(rs, root):
             s = sums[rs.randint(len(sums))]
             s.scope = list(s.scope) + [max(s.scope) + 7]
             yield name, r
+        elif name == 'overlap-dup-scope-list' and prods:
+            # a further child repeats a variable AND the product's own scope list repeats it as often: lengths agree, sets agree
+            p = prods[rs.randint(len(prods))]
+            v = p.children[rs.randint(len(p.children))].scope[0]
+            p.children = list(p.children) + [raw('leaf', [v])]
+            p.scope = list(p.scope) + [v]
+            assign_ids(r)
+            yield name, r
+        elif name == 'dup-scope-list-only' and prods:
+            # only the scope LIST of a product repeats a variable; as sets nothing changed (still a valid circuit by the property)
+            p = prods[rs.randint(len(prods))]
+            p.scope = list(p.scope) + [p.scope[0]]
+            yield name, r
+        elif name == 'overlap-dup-in-child' and prods:
+            # a child whose own scope list repeats a variable (sets unchanged) next to the product
+            p = prods[rs.randint(len(prods))]
+            c = p.children[rs.randint(len(p.children))]
+            if not c.children:
+                c.scope = list(c.scope) + [c.scope[0]]
+                yield name, r
 
 
 GATES = ['likelihood', 'log_likelihood', 'mpe', 'sample', 'prune', 'marginalize', 'em', 'moment']
@@ -294,6 +315,91 @@ def check_gates(ctx, root, name, ncols):
             return
 
 
+# ----------------------------------------------------------------------------- histories: earlier calls of the same session
+PROVOCATIONS = ['em-narrow-data', 'mpe-narrow-data', 'sample-narrow-data', 'likelihood-narrow-data', 'marginalize-empty', 'marginalize-all',
+                'em-ok', 'mpe-ok', 'sample-ok', 'prune-ok', 'marginalize-ok', 'moment-bad-order', 'mpe-no-nan-3d', 'clt-marginalize-foreign']
+
+
+def provoke(name, root, nv):
+    """an earlier call of the session on a VALID circuit; several of them raise inside the library (bad data shape, bad
+    arguments) — whatever they do, validation of later circuits must not depend on it. Returns what happened."""
+    from deeprob.spn.structure.cltree import BinaryCLT
+    X1 = np.zeros((3, 1), dtype=np.float32)
+    Xn1 = np.full((3, 1), np.nan, dtype=np.float32)
+    X = np.zeros((3, nv), dtype=np.float32)
+    Xn = np.full((3, nv), np.nan, dtype=np.float32)
+    r = copy.deepcopy(root)
+    try:
+        if name == 'em-narrow-data':
+            expectation_maximization(r, X1, num_iter=1, batch_perc=1.0, verbose=False)
+        elif name == 'mpe-narrow-data':
+            inference.mpe(r, Xn1)
+        elif name == 'sample-narrow-data':
+            sampling.sample(r, Xn1)
+        elif name == 'likelihood-narrow-data':
+            inference.likelihood(r, X1)
+        elif name == 'marginalize-empty':
+            structure.marginalize(r, [], copy=True)
+        elif name == 'marginalize-all':
+            structure.marginalize(r, list(r.scope) + [max(r.scope) + 3], copy=True)
+        elif name == 'em-ok':
+            expectation_maximization(r, X, num_iter=1, batch_perc=1.0, verbose=False)
+        elif name == 'mpe-ok':
+            inference.mpe(r, Xn)
+        elif name == 'sample-ok':
+            sampling.sample(r, Xn)
+        elif name == 'prune-ok':
+            structure.prune(r, copy=True)
+        elif name == 'marginalize-ok':
+            structure.marginalize(r, [r.scope[0]], copy=True)
+        elif name == 'moment-bad-order':
+            moments.moment(r, order=-1)
+        elif name == 'mpe-no-nan-3d':
+            inference.mpe(r, np.zeros((2, nv, 2), dtype=np.float32))
+        elif name == 'clt-marginalize-foreign':
+            # a circuit with a Chow-Liu leaf: marginalize converts it inside a check-disabled region; the leaf is broken on purpose
+            clt = BinaryCLT(list(range(2)), root=0)
+            clt.fit(np.array([[0, 1], [1, 0], [1, 1], [0, 0]], dtype=np.float32), [[0, 1], [0, 1]], alpha=0.1)
+            clt.params = None
+            p = Product(children=[clt] + [Bernoulli(v, 0.5) for v in range(2, 3)])
+            assign_ids(p)
+            structure.marginalize(p, [0], copy=True)
+    except Exception as ex:
+        return type(ex).__name__
+    return 'returned'
+
+
+def check_history(ctx, root, nv, rs, n_prov):
+    names = [PROVOCATIONS[i] for i in rs.permutation(len(PROVOCATIONS))[:n_prov]]
+    done = []
+    for pn in names:
+        out = provoke(pn, root, nv)
+        done.append([pn, out])
+        ctx.count(f'history:{pn}:{"raised" if out != "returned" else "returned"}')
+        # after this prefix of the history: an invalid circuit must still be rejected by the validator and by every gate
+        for cname, bad in corruptions(rs, root):
+            if spec_verdict(bad) == 'accept':
+                continue
+            iv = impl_verdict(bad)
+            if not iv.startswith('reject'):
+                ctx.violation('c03-history-verdict', f'after the session history {done} validation says {iv} for a circuit that is '
+                              f'{spec_verdict(bad)} by the property ({cname})',
+                              replay=dict(kind='c03-history', valid=raw_table(root), nv=nv, history=[d[0] for d in done], table=raw_table(bad), gate=None))
+                return False
+            for g in GATES:
+                try:
+                    gate_call(g, copy.deepcopy(bad), nv + 8)
+                except ValueError:
+                    continue
+                except Exception:
+                    continue   # gate errors without a history are the business of check_gates
+                ctx.violation(f'c03-history-gate:{g}', f'after the session history {done}, {g} returned a result for an invalid circuit ({cname})',
+                              replay=dict(kind='c03-history', valid=raw_table(root), nv=nv, history=[d[0] for d in done], table=raw_table(bad), gate=g))
+                return False
+            break   # one corruption per prefix keeps the stream fast; the corruption kind rotates with rs
+    return True
+
+
 def run(ctx):
     quick = ctx.tier == 'quick'
     # (i) bounded-exhaustive
@@ -343,11 +449,31 @@ def run(ctx):
                 check_gates(ctx, bad, name, nv + 8)
             if ctx.n_new() >= 3:
                 return
+    # (iv) histories: validation after earlier (failing and succeeding) calls of the same session
+    for k in range(12 if quick else 200):
+        rs = np.random.RandomState(np_seed(ctx.sub_rng('hist', k)))
+        nv = int(rs.randint(2, 5))
+        root = S.rand_spn(rs, list(range(nv)), depth=int(rs.randint(1, 4)), kinds=('bern',), share=0.4)
+        if not root.children:
+            continue
+        assign_ids(root)
+        ctx.count('histories')
+        if not check_history(ctx, root, nv, rs, 5 if quick else 8):
+            return
 
 
 def replay(rep):
     r = rep['replay']
     root = from_raw_table(r['table'])
+    if r['kind'] == 'c03-history':
+        valid = from_raw_table(r['valid'])
+        for pn in r['history']:
+            print('history step', pn, '->', provoke(pn, valid, r['nv']))
+        if r['gate'] is None:
+            iv, sv = impl_verdict(root), spec_verdict(root)
+            print('implementation:', iv, ' property:', sv)
+            return iv == sv
+        r = dict(r, kind='c03-gate', ncols=r['nv'] + 8)
     if r['kind'] == 'c03-gate':
         try:
             gate_call(r['gate'], root, r['ncols'])
